@@ -752,7 +752,8 @@ Proof.
   rewrite (rows_from_eq pre (set_kids t _)), (rows_from_eq pre t), tname_set_kids.
   destruct t as [g n at_ ks]. cbn [set_kids ttag tattrs tkids tname] in *.
   destruct q as [|j q].
-  - cbn in HP. inversion HP; subst P. cbn [fappend]. rewrite frows_app. cbn [frows flat_map]. rewrite app_nil_r.
+  - destruct rest as [|? ?]; [|cbn in Hrl; discriminate]. subst P. clear HP.
+    cbn [fappend]. rewrite frows_app. cbn [frows flat_map]. rewrite app_nil_r.
     set (Y := (pre ++ [n], g, at_) :: frows (pre ++ [n]) ks).
     assert (HY : forall r, In r Y -> under (pre ++ [n]) r = true).
     { intros r [<-|Hr]; [unfold under; cbn; apply pfx_refl|].
@@ -766,14 +767,15 @@ Proof.
     rewrite insert_last_back by assumption. rewrite insert_last_all; [|discriminate|exact HY].
     rewrite <- !app_assoc. reflexivity.
   - assert (Hq' : j :: q <> []) by discriminate.
-    rewrite (IH _ _ _ x (wf_t_kids _ Ht) Hq' HP).
+    pose proof (wf_t_kids _ Ht) as Hk. cbn [tkids] in Hk.
+    rewrite (IH _ _ _ x Hk Hq' HP).
     destruct (fpath_row _ _ _ _ Hq' HP) as [r [Hr Hrp]].
     assert (EK : existsb (under P) (frows (pre ++ [n]) ks) = true).
     { eapply existsb_true; [exact Hr|]. unfold under. rewrite Hrp. apply pfx_refl. }
     set (K := frows (pre ++ [n]) ks) in *.
-    change (frows pre a ++ ((pre ++ [n], g, at_) :: K) ++ frows pre b)
-      with (frows pre a ++ ([(pre ++ [n], g, at_)] ++ K) ++ frows pre b).
-    rewrite <- (app_assoc [(pre ++ [n], g, at_)] K), (app_assoc (frows pre a)).
+    symmetry.
+    transitivity (insert_last ((frows pre a ++ [(pre ++ [n], g, at_)]) ++ (K ++ frows pre b)) P (rows_from P x)).
+    { f_equal. rewrite <- !app_assoc. reflexivity. }
     rewrite insert_last_front by (rewrite existsb_app', EK; reflexivity).
     rewrite insert_last_back by assumption.
     rewrite <- !app_assoc. reflexivity.
